@@ -20,6 +20,7 @@ import (
 	"github.com/lab5e/lospan/pkg/lg"
 	"github.com/lab5e/lospan/pkg/protocol"
 	"github.com/lab5e/lospan/pkg/server"
+	"github.com/lab5e/lospan/pkg/verifgate"
 )
 
 // Process the join request. Returns false if it failed.
@@ -146,6 +147,7 @@ func (d *Decrypter) processJoinRequest(decoded server.LoRaMessage) bool {
 	// message for it. TODO (stalehd): this is butt ugly. Needs redesign.
 	decoded.Payload.MACPayload.FHDR.DevAddr = joinAccept.DevAddr
 
+	verifgate.Gate("handoff:macOutput")
 	d.macOutput <- decoded
 	return true
 }
